@@ -15,3 +15,8 @@ def find(ctx, oblig, diag):
     res = dict(ctx["cache"]["table"])
     res["source"] = "every code of data/s3_error_codes.json + override/headers/custom cases through S3Error::to_http_response"
     return res
+
+def standing(ctx, oblig, diag):
+    res = ctx["replay_tool"](["error-table"])
+    if res.get("violates"): res["source"] = "every code of data/s3_error_codes.json + override/headers/custom cases"
+    return res
